@@ -105,7 +105,7 @@ def _classify(parked, live):
     op, args = parked[0], parked[1]
     path = args[0] if args and isinstance(args[0], str) else ""
     if "/blobs/" in path:
-        cls = "meta" if path.endswith(".meta") else ("blobtmp" if ".tmp" in path else "blob")
+        cls = ("metatmp" if ".tmp" in path else "meta") if ".meta" in path else ("blobtmp" if ".tmp" in path else "blob")
     elif path.startswith("$R/data"):
         cls = "link"
     elif path.startswith("$R/int"):
@@ -398,7 +398,7 @@ def _crash_probes(parked, live, idir, probe, case):
     else:
         probe("crash_during_store_creation")
     if op == "write" and len(args) >= 3 and args[1] == 2:
-        probe("crash_half_meta" if path.endswith(".meta") else "crash_half_blob")
+        probe("crash_half_meta" if ".meta" in path else "crash_half_blob")
     if op == "symlink":
         probe("crash_between_remove_and_symlink" if case["setup_evals"] and case["edit"] else "crash_before_first_symlink")
     if op == "rename" or ".tmp" in path:
